@@ -6,9 +6,9 @@ use crate::exec::{self, Violation};
 use crate::model::*;
 use crate::ops::*;
 
-fn run(sc: &Scenario) -> Option<Violation> {
+fn run(sc: &Scenario, prop: &str) -> Option<Violation> {
     let mut src = exec::Scripted::new(sc.ops.clone());
-    let out = exec::execute(&sc.init, &mut src, false);
+    let out = exec::execute(&sc.init, &mut src, false, prop);
     if out.rejected.is_some() {
         return None;
     }
@@ -29,7 +29,7 @@ pub fn minimise(sc: &Scenario, want_sig: &str, prop: &str, budget: usize) -> Shr
     let mut tried = 0usize;
     let mut check = |cand: &Scenario, tried: &mut usize| -> bool {
         *tried += 1;
-        match run(cand) {
+        match run(cand, prop) {
             Some(v) => same_class(&v, want_sig, prop),
             None => false,
         }
